@@ -544,7 +544,9 @@ class BaseNode:
             if node.is_leaf:
                 return 1
             child_length = [
-                _recursive_diameter(child) for child in node.children if child
+                _recursive_diameter(child)
+                for child in node.children
+                if child is not None
             ]
             diameter = max(diameter, sum(heapq.nlargest(2, child_length)))
             return 1 + max(child_length)
